@@ -243,7 +243,7 @@ def ref_win(fd, fpo, addr, callee, mem, gcps, hasgc):
 class C07(PropBase):
     pid = "C07"
     coq_dirs = ["Base", "Gen", "C06", "C07", "C08", "C09", "C11"]
-    translators = ["c07_walker_args.py"]
+    translators = ["c07_walker_args.py", "c07_win_eval.py"]
     bins = ["c07"]
     rule = ("case = STACK WIN records (+ optionally one STACK CFI INIT record), lookup address, callee x86 registers, grand-callee "
             "parameter size, memory image; walked (A) by SymbolFile::walk_frame with a 32-bit mock FrameWalker, (B) by one x86 "
@@ -257,7 +257,8 @@ class C07(PropBase):
             "outside the stack x lookup at eip-1. Non-trivial = the walk succeeded. distinct = distinct case lines")
     trusted_base = [
         "Coq 8.16.1 kernel (vm_compute only in Examples / witness lemmas)",
-        "model C07/Model.v written by hand from walker.rs (eval_win_expr, FPO), parser.rs (record acceptance on parsed fields, insert_win_stack_info), mod.rs walk_frame; reuses C06/Model.v and C08/Model.v; tied to the code by the correspondence run",
+        "model C07/Model.v written by hand from walker.rs (eval_win_expr, FPO), parser.rs (record acceptance on parsed fields, insert_win_stack_info), mod.rs walk_frame; reuses C06/Model.v and C08/Model.v; tied to the code by the correspondence run AND (round 5) proved equal, function by function, to the Gallina compiled from walker.rs (c07_source_is_model)",
+        "translate/c07_win_eval.py: a small Rust-subset parser + CPS code generator (lets, assignments, `?`, if / if let / match on string literals, method table with u32/u64/bool/Option/WinVal/&str typing) compiles win_frame_size, clear_stack_win_caller_registers, eval_win_expr (prologue, every arm of `match token`, output_regs) and walk_with_stack_win_fpo into Gen/C07WinEval.v; it pins the tokenizer closure, the output loop, walk_with_stack_win_framedata and SymbolFile::walk_frame's record preference textually and aborts on anything it does not understand. Trusted: the meaning it gives each Rust construct (wrapping_* = mod 2^w, checked_* = option, `-` = trapping subtraction, wrapping_div/rem = panic on 0, `as u32` = mod 2^32, HashMap insert/remove/get = association list with replace semantics)",
         "CfiStackWalker::from_ctx_and_args: the has_grand_callee / grand_callee_parameter_size field expressions are regenerated from minidump-unwind/src/lib.rs by translate/c07_walker_args.py (Gen/C07WalkerArgs.v; the rest of the constructor, walk_stack's grand-callee statement and the FrameWalker getters are pinned textually); the translator's small Option-chain language is trusted",
         "byte-level text route (C09/Grammar.v line parsers, hand-written from nom) proved equal to the record route for files without STACK CFI records (c07_text_route_agrees_parsed: from the lines of the file; the run-length normal form of program strings is proved as a parser invariant) and run side by side on every case; the harness's hex printing of the fields is test glue",
         "x86::get_caller_by_cfi post-processing mirrored in C06/Driver.v post_real (owned by C05); C07/Walker.v fpo_walk is walk_stack's loop restricted to FPO records (abp = false) on the abstract 32-bit walker",
@@ -276,10 +277,15 @@ class C07(PropBase):
                 "c07_fpo_recursion_chain; induction on the activations); the byte-level text route (C09 grammar -> finish -> tables) equals the "
                 "record route the theorems are about (c07_text_tables_agree, c07_text_route_agrees_parsed: walk_frame_text = walk_frame on the parsed "
                 "records for every file without STACK CFI records; the normal form of parsed strings is a proved parser invariant). "
+                "Round 5: the evaluator is compiled from walker.rs on every run (translate/c07_win_eval.py -> Gen/C07WinEval.v: win_frame_size, the cleared names, "
+                "eval_win_expr's prologue / every `match token` arm / output registers, walk_with_stack_win_fpo statement by statement) and proved equal to the "
+                "hand-written model for all arguments (c07_source_is_model); refinement of the documented semantics, the exact output set, the FPO formulae and "
+                "panic-freedom of the whole walk_frame are stated for the compiled functions (c07_src_refines_spec, c07_src_mock_exact, c07_src_fpo_formulae, "
+                "c07_src_walk_frame_total), so an edited formula / guard / operator / constant / register list changes the Gallina the theorems are checked against. "
                 "Model tied to the code by exhaustive programs to length 4, extreme size fields, overlapping record sets, through a mock FrameWalker, "
                 "through x86 walk_stack from a context frame and from frame lists, debug and release; an independent Python reference judges "
                 "every implementation answer.",
-        "note": "Trusted: Coq kernel; hand-written model (correspondence-checked); translator for the from_ctx_and_args field expressions; extraction + glue. "
+        "note": "Trusted: Coq kernel; hand-written model (correspondence-checked and proved equal to the compiled source); the two translators (Option-chain language for from_ctx_and_args; Rust-subset compiler for walker.rs); extraction + glue. "
                 "c07_fpo_recovers_chain(_bp) are about whole walks through FPO records (both allocates_base_pointer kinds) on the abstract 32-bit walker (frame-data programs and "
                 "mixes with STACK CFI in whole walks are covered by the run: C04's STACK WIN stacks). Known finding F-C07a (implicit forwarding of "
                 "ebp/ebx/esi/edi through STACK WIN frames) is pinned by minidump-stackwalk snapshots and reported as KNOWN-FINDING. No axioms.",
